@@ -3,6 +3,7 @@
 taking the witness history of each signature from a worker report given on the command line."""
 import json, sys
 DESC = {
+ "C15|zero-length-fields|amplification|model=records-x-zero-length-fields": ("KF-C15-zero-length-amplification", "template fields of declared length 0 are materialised once per record without consuming input: result size is records x zero-length fields x per-cell cost, unbounded relative to the bytes received (200 zero-length fields x 2000 one-byte records: ~15,700 result bytes per received byte)", "src/variable_versions/v9.rs FieldParser::parse / get_total_size, src/variable_versions/ipfix.rs is_valid (one non-zero field suffices)", "zero-length fields are pinned as accepted by the unit test it_parses_0_length_fields_ipfix; rejecting or capping them changes that snapshot"),
  "C13|v9|protocol_number|unassigned|model=255": ("KF-C13-v9-protocol-number-unassigned", "V9 common flow: a PROTOCOL byte in 145..=254 is reported as protocol_number 255 (the decoded ProtocolTypes::Unknown carries no number)", "src/netflow_common.rs From<&V9> / src/protocol.rs From<ProtocolTypes> for u8", "same root as KF-C09-protocol-unassigned: needs a public enum change"),
  "C13|ipfix|protocol_type|n=0|got=Unknown": ("KF-C13-ipfix-protocol-name-0", "IPFIX common flow: protocolIdentifier 0 (IANA HOPOPT) is named Unknown (ProtocolTypes::from(u8) table)", "src/protocol.rs impl From<u8> for ProtocolTypes", "same root as KF-C03-protocol-0 (snapshot-pinned table)"),
  "C13|ipfix|protocol_type|n=1|got=Hopopt": ("KF-C13-ipfix-protocol-name-1", "IPFIX common flow: protocolIdentifier 1 (IANA ICMP) is named Hopopt (ProtocolTypes::from(u8) table)", "src/protocol.rs impl From<u8> for ProtocolTypes", "same root as KF-C03-protocol-1 (snapshot-pinned table)"),
